@@ -31,7 +31,7 @@ theorem Graph.viewOf_eq (g : Graph) (n : Nat) : g.viewOf n = (g.tb n).view := rf
 def TabOK (cfg : Cfg) (t : Tab) : Prop :=
   t.compiled = true → analyze (t.built.map (·.1.d)) = .ok t.ana ∧
     (DistinctHandlers (Fn.methsOf t.built) →
-      FInv cfg t.built t.ana (MMap.fresh (Fn.methsOf t.built)).empty t.view)
+      FInv cfg t.built t.ana t.view)
 
 /-- what `compile` leaves behind -/
 def Tab.Fresh (t : Tab) : Prop :=
@@ -49,7 +49,7 @@ theorem TabOK.call (cfg : Cfg) (t : Tab) (c : Call) (h : TabOK cfg t) :
   obtain ⟨ha, hf⟩ := h hc
   refine ⟨ha, fun hd => ?_⟩
   have ok := plan_ok (Fn.cfgOf cfg t.built) (Fn.methsOf t.built) hd.ids hd.codes
-  have r := (call_rel cfg _ _ _ ok _ _ (hf hd) (hf hd) c).inv1
+  have r := (call_rel cfg _ _ ok _ _ (hf hd) (hf hd) c).inv1
   exact ⟨rfl, rfl, rfl, r.mm⟩
 
 /-! ## how the operations change the tables: each one is kept or rebuilt from scratch -/
@@ -302,7 +302,7 @@ theorem TabOK.call_as_fresh (cfg : Cfg) (t : Tab) (c : Call) (h : TabOK cfg t) (
   obtain ⟨ha, hf⟩ := h hc
   have ok := plan_ok (Fn.cfgOf cfg t.built) (Fn.methsOf t.built) hd.ids hd.codes
   rw [Fn.call_fresh_ok cfg _ t.ana ha c]
-  have r := call_rel cfg _ t.ana _ ok t.view (Fn.built t.built t.ana) (hf hd) (Fn.built_inv cfg _ t.ana) c
+  have r := call_rel cfg _ t.ana ok t.view (Fn.built t.built t.ana) (hf hd) (Fn.built_inv cfg _ t.ana) c
   exact ⟨r.outcome, r.trace⟩
 
 /-- the node-level statement, on any graph satisfying both invariants -/
